@@ -1530,6 +1530,15 @@ static int cfg_parse_internal(cfg_t *cfg, int level, int force_state, cfg_opt_t 
 			val->section->path = cfg->path; /* Remember global search path */
 			val->section->line = cfg->line;
 			val->section->errfunc = cfg->errfunc;
+			if (cfg->filename) {
+				/* A section created by cfg_init() does not know the file yet */
+				char *fn = strdup(cfg->filename);
+
+				if (fn) {
+					free(val->section->filename);
+					val->section->filename = fn;
+				}
+			}
 			rc = cfg_parse_internal(val->section, level + 1, -1, NULL);
 			if (rc != STATE_EOF)
 				goto error;
